@@ -173,6 +173,10 @@ class Parser:
                 if one != "1":
                     raise TranslateError("size_type(-%s) not understood" % one)
                 return ("max",)
+            if v in ("this->max_size", "max_size") and "max_size()" in self.env:
+                self.eat("op", "(")
+                self.eat("op", ")")
+                return ("var",) + tuple(self.env["max_size()"])
             if v in self.env:
                 return ("var",) + tuple(self.env[v])
             raise TranslateError("unknown identifier %r in %r" % (v, self.text))
@@ -365,6 +369,22 @@ def block_after(src, m, what):
     return src[i:j - 1]
 
 
+def drop_directives(src):
+    return "\n".join(l for l in src.split("\n") if not l.strip().startswith("#"))
+
+
+def limit_def(D, out, name, params, body, what):
+    """`if (n > EXPR) throw std::bad_alloc();` -> def <name>Val + def <name> : Option Nat"""
+    chk = re.search(r"if\s*\(\s*n\s*>\s*([^;{}]*?)\)\s*\{?\s*throw\s+std::bad_alloc\s*\(\s*\)\s*;", body)
+    out.append("/-- `some m`: requests with n > m are refused before anything is computed; `none`: no such test -/")
+    if chk:
+        D.add(name + "Val", ("sz",), chk.group(1), "max_size()", {"max_size()": ("(mallocMaxSize sz)", "fn:mallocMaxSize")},
+              {"T": ("sz", "sz"), "value_type": ("sz", "sz")}, grid=lambda: ((a,) for a in range(1, 4100)))
+        out.append("def %s (sz : Nat) : Option Nat := some (%sVal sz)" % (name, name))
+    else:
+        out.append("def %s (sz : Nat) : Option Nat := none" % name)
+
+
 def nows(s):
     return re.sub(r"\s+", "", s)
 
@@ -409,6 +429,8 @@ def translate(repo):
            "def refSize : Nat := 8",
            "def refAlign : Nat := 8",
            "def sizeMax : Nat := 18446744073709551615",
+           "/-- alignof(std::max_align_t): what malloc guarantees -/",
+           "def maxAlign : Nat := 16",
            "/-- reduction of a `std::size_t` result -/",
            "def wrap (x : Nat) : Nat := x % 18446744073709551616",
            ""]
@@ -471,16 +493,36 @@ def translate(repo):
              "MallocAllocator::max_size")
     D.add("mallocMaxSize", ("sz",), m.group(1), "size_type(-1) / sizeof(T)", {}, szT,
           grid=lambda: ((a,) for a in range(1, 4100)))
-    body = block_after(src, find(r"pointer\s+allocate\s*\(\s*size_type\s+n[^)]*\)\s*\{", src, "MallocAllocator::allocate"),
-                       "MallocAllocator::allocate")
-    chk_rx = r"if\s*\(\s*n\s*>\s*(?:this\s*->\s*)?max_size\s*\(\s*\)\s*\)\s*\{?\s*throw\s+std::bad_alloc\s*\(\s*\)\s*;"
-    chk = re.search(chk_rx, body)
-    out.append("/-- `some m`: requests with n > m are refused before anything is computed; `none`: no such test -/")
-    out.append("def mallocLimit (sz : Nat) : Option Nat := %s" % ("some (mallocMaxSize sz)" if chk else "none"))
-    m = find(r"std::malloc\s*\(([^;]*)\)\s*\)\s*;", body, "std::malloc call")
-    D.add("mallocBytes", ("sz", "n"), m.group(1), "n * sizeof(T)", {"n": ("n", "n")}, szT, grid=count_grid, wrap=True)
+    body = drop_directives(block_after(src, find(r"pointer\s+allocate\s*\(\s*size_type\s+n[^)]*\)\s*\{", src,
+                                                 "MallocAllocator::allocate"), "MallocAllocator::allocate"))
+    limit_def(D, out, "mallocLimit", ("sz",), body, "MallocAllocator")
+    calls = re.findall(r"std::malloc\s*\(([^;]*)\)\s*\)\s*;", body)
+    if len(calls) != 1:
+        raise TranslateError("MallocAllocator::allocate: expected exactly one std::malloc call, found %d" % len(calls))
+    D.add("mallocBytes", ("sz", "n"), calls[0], "n * sizeof(T)", {"n": ("n", "n")}, szT, grid=count_grid, wrap=True)
+    # over-aligned types: `if constexpr (alignof(T) > alignof(std::max_align_t)) ret = …aligned_alloc(alignof(T), BYTES)…; else`
+    over = re.search(r"if\s+constexpr\s*\(([^;{}]*?)\)\s*\{?\s*ret\s*=\s*static_cast<pointer>\s*\(\s*std::aligned_alloc\s*\("
+                     r"([^;,]*),([^;]*)\)\s*\)\s*;\s*\}?\s*else\s*\{?\s*ret\s*=\s*static_cast<pointer>\s*\(\s*std::malloc", body)
+    if "aligned_alloc" in body and not over:
+        raise TranslateError("MallocAllocator::allocate: aligned_alloc used in a way the translator does not understand")
+    alT = {"T": ("al", "al"), "value_type": ("al", "al"), "std::max_align_t": ("maxAlign", "maxAlign")}
+    out.append("/-- the alignment the C library guarantees for the call `allocate` makes: malloc gives maxAlign, the over-aligned")
+    out.append("    branch (if the source has one) calls aligned_alloc with the alignment below -/")
+    if over:
+        D.add("mallocOverCond", ("al",), over.group(1), "alignof(T) > alignof(std::max_align_t)", {}, {}, alT,
+              grid=lambda: ((a,) for a in (1, 2, 4, 8, 16, 32, 64, 128, 256, 4096)), prop=True)
+        D.add("mallocOverAlign", ("al",), over.group(2), "alignof(T)", {}, {}, alT,
+              grid=lambda: ((a,) for a in (1, 2, 4, 8, 16, 32, 64, 128, 256, 4096)))
+        D.add("mallocOverBytes", ("sz", "n"), over.group(3), "n * sizeof(T)", {"n": ("n", "n")}, szT, grid=count_grid, wrap=True)
+        out.append("def mallocAlignment (al : Nat) : Nat := if mallocOverCond al then mallocOverAlign al else maxAlign")
+        out.append("def mallocBytesFor (sz al n : Nat) : Nat := if mallocOverCond al then mallocOverBytes sz n else mallocBytes sz n")
+    else:
+        out.append("def mallocAlignment (al : Nat) : Nat := maxAlign")
+        out.append("def mallocBytesFor (sz al n : Nat) : Nat := mallocBytes sz n")
     if not re.search(r"if\s*\(\s*!\s*ret\s*\)\s*\{?\s*throw\s+std::bad_alloc", body):
         raise TranslateError("MallocAllocator::allocate no longer turns a null result into bad_alloc")
+    if not re.search(r"void\s+deallocate\s*\([^)]*\)\s*\{\s*std::free\s*\(\s*p\s*\)\s*;\s*\}", src):
+        raise TranslateError("MallocAllocator::deallocate is no longer std::free(p)")
     out.append("")
 
     # ---- AlignedAllocator ---------------------------------------------------------------------
@@ -496,8 +538,7 @@ def translate(repo):
     out.append("def alignedAlignment (al A : Nat) : Nat := if A = 0 then al else A")
     body = block_after(src, find(r"pointer\s+allocate\s*\(\s*size_type\s+n[^)]*\)\s*\{", src, "AlignedAllocator::allocate"),
                        "AlignedAllocator::allocate")
-    chk = re.search(chk_rx, body)
-    out.append("def alignedLimit (sz : Nat) : Option Nat := %s" % ("some (mallocMaxSize sz)" if chk else "none"))
+    limit_def(D, out, "alignedLimit", ("sz",), body, "AlignedAllocator")
     m = find(r"size_type\s+size\s*=\s*([^;]+);", body, "AlignedAllocator byte size")
     D.add("alignedBytes", ("sz", "n"), m.group(1), "n * sizeof(T)", {"n": ("n", "n")}, szT, grid=count_grid, wrap=True)
     if not re.search(r"std::aligned_alloc\s*\(\s*alignment\s*,\s*size\s*\)", body):
@@ -549,6 +590,38 @@ def translate(repo):
         raise TranslateError("deallocate no longer searches by page_ptr")
     out.append("/-- deallocate(ptr) looks for the entry whose page_ptr equals this key -/")
     out.append("def dbgLookupKey (ptr page : Nat) : Nat := ptr - ptr % page")
+    # the assertions on the entry found
+    found = block_after(dbody, find(r"if\s*\(\s*it->page_ptr\s*==\s*page_ptr\s*\)\s*\{", dbody, "deallocate: entry found"),
+                        "deallocate: entry found")
+    if not re.search(r"ALLOCATION_ASSERT\s*\(\s*ptr\s*==\s*it->ptr\s*\)\s*;", found):
+        raise TranslateError("deallocate no longer asserts ptr == it->ptr")
+    out.append("/-- deallocate(ptr, n): the size test on the entry found (`true`: passes) -/")
+    env_n = {"n": ("n", "n"), "it->size": ("size", "size")}
+    m = re.search(r"if\s*\(([^;{}]*?)\)\s*ALLOCATION_ASSERT\s*\(([^;{}]*?it->size[^;{}]*?)\)\s*;", found)
+    grid_n = lambda: ((a, b) for a in (0, 1, 2, 7, 4096, 2 ** 63) for b in (0, 1, 2, 7, 4096, 2 ** 63))
+    if m:
+        D.add("dbgSizeOk", ("n", "size"), "!(%s) || (%s)" % (m.group(1), m.group(2)), "!(n != 0) || (n == it->size)", env_n,
+              grid=grid_n, prop=True)
+    elif re.search(r"it->size", found):
+        raise TranslateError("deallocate: size assertion not understood")
+    else:
+        out.append("def dbgSizeOk (n size : Nat) : Bool := true")
+    # the mapping is given back (the branch without DEBUG_ALLOCATOR_KEEP)
+    mk = re.search(r"#\s*if\s+DEBUG_ALLOCATOR_KEEP\b(.*?)#\s*else(.*?)#\s*endif", found, re.S)
+    release = mk.group(2) if mk else found
+    env_it = {"it->pages": ("pages", "pages"), "page_size": ("page", "page")}
+    grid_p = lambda: ((k, pg) for pg in (4096, 16384, 65536) for k in (0, 1, 2, 3, 7, 2 ** 40, 2 ** 52 - 1, 2 ** 52, 2 ** 63))
+    m = find(r"munmap\s*\(\s*it->page_ptr\s*,([^;]*)\)\s*;\s*allocation_list\.erase\s*\(\s*it\s*\)\s*;", release,
+             "deallocate: munmap(it->page_ptr, …); allocation_list.erase(it);")
+    out.append("/-- deallocate unmaps this many bytes at it->page_ptr -/")
+    D.add("dbgUnmapLen", ("pages", "page"), m.group(1), "it->pages * page_size", env_it, grid=grid_p, wrap=True)
+    # the destructor unmaps whatever is still recorded
+    dtor = block_after(src, find(r"~AllocationManager\s*\(\s*\)\s*\{", src, "~AllocationManager"), "~AllocationManager")
+    m = find(r"munmap\s*\(\s*it->page_ptr\s*,([^;]*)\)\s*;", dtor, "~AllocationManager: munmap(it->page_ptr, …)")
+    if not re.search(r"for\s*\(\s*it\s*=\s*allocation_list\.begin\s*\(\s*\)\s*;\s*it\s*!=\s*allocation_list\.end\s*\(\s*\)\s*;", dtor):
+        raise TranslateError("~AllocationManager no longer walks the whole allocation list")
+    out.append("/-- ~AllocationManager unmaps this many bytes at it->page_ptr for every entry still recorded -/")
+    D.add("dbgDtorUnmapLen", ("pages", "page"), m.group(1), "it->pages * page_size", env_it, grid=grid_p, wrap=True)
     out.append("")
     out.append("end DV.C15.Gen")
     return [("DuneVerif/Gen/C15.lean", "\n".join(out) + "\n")]
